@@ -124,7 +124,13 @@ func (e *Engine) findImport(pkg *packages.Package, name string) *types.Package {
 }
 
 func (e *Engine) specError(f string, a ...interface{}) {
-	e.cs.Errors = append(e.cs.Errors, fmt.Sprintf(f, a...))
+	m := fmt.Sprintf(f, a...)
+	for _, x := range e.cs.Errors {
+		if x == m {
+			return
+		}
+	}
+	e.cs.Errors = append(e.cs.Errors, m)
 }
 
 var bvCounter int
@@ -193,7 +199,11 @@ func (u *Unit) specExpr(st *State, e *SExpr, env *SpecEnv, q *bool) *Val {
 				u.eng.specError("%s: unknown ghost field %s", env.what, e.Name)
 				return boolVal("true")
 			}
-			t := u.resolveType(env.pkg, gf.Type)
+			gp := u.eng.pkgByPath(gf.Pkg)
+			if gp == nil {
+				gp = env.pkg
+			}
+			t := u.resolveType(gp, gf.Type)
 			h := u.heapGet(st, "G!"+e.Name, sortOf(t))
 			return u.fromScalar(st, app("select", h, u.scalar(st, x)), t)
 		}
@@ -501,6 +511,28 @@ func (u *Unit) specCall(st *State, e *SExpr, env *SpecEnv, q *bool) *Val {
 			return boolVal(has)
 		}
 		return v
+	case "errorsIs": // errorsIs(e, target): the same uninterpreted relation the code model of errors.Is uses
+		a, b := ev(0), ev(1)
+		uf := u.d.fun("fn!errors.Is", []string{SInt, SInt}, SBool)
+		return boolVal(app(uf, a.S, b.S))
+	case "errorsAs": // errorsAs(e, "net.Error")
+		a := ev(0)
+		uf := u.d.fun("fn!errors.As!"+args[1].Name, []string{SInt}, SBool)
+		return boolVal(app(uf, a.S))
+	case "errorsAsVal":
+		a := ev(0)
+		uf := u.d.fun("fn!errors.AsVal!"+args[1].Name, []string{SInt}, SInt)
+		return &Val{T: types.NewInterfaceType(nil, nil), S: app(uf, a.S)}
+	case "purecall": // purecall("(net.Error).Timeout", "bool", args...): result 0 of a functional pure library call
+		var sorts, terms []string
+		for i := 2; i < len(args); i++ {
+			v := ev(i)
+			sorts = append(sorts, sortOf(v.T))
+			terms = append(terms, u.scalar(st, v))
+		}
+		rt := u.resolveType(env.pkg, args[1].Name)
+		f := u.d.fun("pure!"+args[0].Name+"!0", sorts, sortOf(rt))
+		return u.fromScalar(st, app(f, terms...), rt)
 	case "seen": // inside range-map loop invariants: key already visited
 		k := ev(0)
 		return boolVal(app("select", u.curLoopSeen[env.loopN], u.scalar(st, k)))
